@@ -244,6 +244,12 @@ class CallGraph:
                 if f is not None and f.cls is not None:
                     return {"super:" + f.cls.qualname}
                 return set()
+            if isinstance(expr.func, ast.Attribute) and expr.func.attr == "__new__":
+                # C.__new__(C): an uninitialised instance of C
+                bt = self.expr_types(expr.func.value, f, depth + 1)
+                inst = {"cls:" + t[5:] for t in bt if t.startswith("type:")}
+                if inst:
+                    return inst
             ft = self.expr_types(expr.func, f, depth + 1)
             out = set()
             for t in ft:
